@@ -432,9 +432,32 @@ def initial_data(cfg):
             raise HarnessError(cfg["xform"])
     y = np.array([objective(r) for r in rows])
     e = np.array([0.05, 0.1, 0.02, 0.07][: len(rows)]) if cfg["yerr"] else None
-    lo = 0.5 if cfg["layout"] == "outside" else -0.25
-    bounds = [(lo, 3.25)] + ([(-0.25, 3.25)] if d == 2 else [])
+    if cfg.get("bform", "tuples") == "iarray":  # an integer array can only hold an integer box
+        lo = 1.0 if cfg["layout"] == "outside" else -1.0
+        bounds = [(lo, 4.0)] + ([(-1.0, 4.0)] if d == 2 else [])
+    else:
+        lo = 0.5 if cfg["layout"] == "outside" else -0.25
+        bounds = [(lo, 3.25)] + ([(-0.25, 3.25)] if d == 2 else [])
     return rows, x, y, e, bounds
+
+
+BOUND_FORMS = ["tuples", "lists", "farray", "iarray"]
+
+
+def bounds_object(bounds, form):
+    """the search box in one of the container forms a caller may hold it in (a new object every call)"""
+    if form == "tuples":
+        return [tuple(b) for b in bounds]
+    if form == "lists":
+        return [list(b) for b in bounds]
+    if form == "farray":
+        return np.array(bounds, dtype=float)
+    if form == "iarray":
+        a = np.array(bounds)
+        if not np.all(a == np.round(a)):
+            raise HarnessError("integer bounds form needs an integer box")
+        return a.astype(np.int64)
+    raise HarnessError(form)
 
 
 MENU = {1: [[1.75], [0.625], [2.875], [1.25]], 2: [[1.75, 1.0], [0.625, 2.375], [2.875, 0.375], [1.25, 1.5]]}
@@ -514,7 +537,8 @@ def run_one_history(cfg, hist, bad, counters):
     REGM.random = script
     try:
         rows, x0, y0, e0, bounds = initial_data(cfg)
-        bounds_in = list(bounds)
+        bform = cfg.get("bform", "tuples")
+        bounds_in = bounds_object(bounds, bform)  # the caller's own object: watched (bytes, shape, dtype / deep equality) after every call
         snap = Snap()
         snap.add("ctor-x", x0)
         snap.add("ctor-y", y0)
@@ -538,6 +562,11 @@ def run_one_history(cfg, hist, bad, counters):
         def invariants(where, done):
             for name, how in snap.changed():
                 site = name.split("#")[0]
+                if site == "ctor-bounds":
+                    now = np.asarray(bounds_in, dtype=float).tolist()
+                    bad(f"history/caller-array-modified/ctor-bounds/given-as:{bform}", f"after {where}: the search bounds object the caller passed ({bform}) was modified ({how}): it now holds {now}, "
+                        f"the caller wrote {[list(b) for b in bounds]}", history=done, d=d, bounds_form=bform)
+                    continue
                 bad(f"history/caller-array-modified/{site}", f"after {where}: the caller's {name} was modified ({how})", history=done, d=d)
             X, Y = np.array(mx), np.array(my)
             ok = True
@@ -682,6 +711,10 @@ def run_one_history(cfg, hist, bad, counters):
                     elif not (np.all(pv >= lo) and np.all(pv <= hi)):
                         bad(f"history/propose-{which}/outside-bounds", f"proposal {pv.tolist()} outside {bounds}", history=done, proposal=pv.tolist())
                     counters["tags"].add(f"proposal {which} d={d} {'on-boundary' if (np.any(pv == lo) or np.any(pv == hi)) else 'interior'}")
+                    streak = 1
+                    while streak <= pos and hist[pos - streak] in ("Pb", "Pd"):
+                        streak += 1
+                    counters["tags"].add(f"proposal {which} d={d} bounds-given-as={bform} proposals-in-a-row={streak}")
                 pending = p
                 if isinstance(p, np.ndarray):
                     snap.add(f"proposal-returned-by-propose_evaluation#{pos}", p)
@@ -764,7 +797,7 @@ def ev_history(case):
     tags = set(counters["tags"])
     if counters["random_calls"]:
         tags.add(f"scripted starts used: script={cfg['script']}")
-    tags.add(f"history-config d={cfg['d']} acq={cfg['acq']} yerr={cfg['yerr']} layout={cfg['layout']} x={cfg['xform']} script={cfg['script']}")
+    tags.add(f"history-config d={cfg['d']} acq={cfg['acq']} yerr={cfg['yerr']} layout={cfg['layout']} x={cfg['xform']} bounds={cfg.get('bform', 'tuples')} script={cfg['script']}")
     for k, c in seen.items():
         for f in fails:
             if f["key"] == k:
@@ -815,10 +848,13 @@ def run(ck):
             xforms = ("col", "flat", "strided") if d == 1 else ("own", "view")
             combos = [(sc, ye, la, xf) for sc in scripts for ye in (False, True) for la in ("inside", "outside") for xf in xforms]
             acqs = (("EI", None), ("UCB", 2.0), ("MV", None), ("UCB", 0.0))
-        for acq, kappa in acqs:
-            for script, yerr, layout, xform in combos:
+        for ai, (acq, kappa) in enumerate(acqs):
+            for ci, (script, yerr, layout, xform) in enumerate(combos):
+                # container form of the search bounds: rotated over the configuration product so that every form meets every
+                # d, acquisition, optimiser route and input form (a Latin-square slice; the seed shifts it)
+                bform = BOUND_FORMS[(ai + ci + seed) % len(BOUND_FORMS)]
                 for first in [None] + ACTIONS:
-                    hcases.append({"d": d, "acq": acq, "kappa": kappa, "script": script, "yerr": yerr, "layout": layout, "xform": xform, "first": first, "depth": 3})
+                    hcases.append({"d": d, "acq": acq, "kappa": kappa, "script": script, "yerr": yerr, "layout": layout, "xform": xform, "bform": bform, "first": first, "depth": 3})
     res = ck.run_cases("history", hcases, chunk=1)
     ck.extra["history_search"] = {
         "configurations": len(hcases) // 4,
